@@ -19,6 +19,7 @@ mod s_build3d;
 mod s_cli;
 mod s_robust;
 mod s_fragments;
+mod s_rigid;
 mod s_trace;
 
 fn main() {
@@ -51,6 +52,7 @@ fn main() {
         "sd" => s_sd::run(&mut out, seed, &tier),
         "trace" => s_trace::run(&mut out, &rest[0]),
         "why" => s_trace::why_abort(&mut out),
+        "rigid" => s_rigid::run(&mut out, seed, &tier),
         "fragments" => s_fragments::run(&mut out, seed, &tier),
         "robust" => s_robust::run(&mut out, seed, &tier),
         "cli" => s_cli::run(&mut out, seed, &tier),
